@@ -131,6 +131,45 @@ def op_noclose(cid, kind, keep, name):
     return _events(reader.rows(), m["errors"])
 
 
+def op_read_twice(cid, kind, keep, name):
+    """One Reader iterated twice (source rewound in between): each pass is a run of its own."""
+    m = harness.modules()
+    source = harness.NamedStringIO(text_of(kind, name), "data.txt")
+    reader = m["validio"].Reader(cid, source, on_error="yield")
+    out = []
+    for _ in range(2):
+        source.seek(0)
+        events = _events(reader.rows(), m["errors"])
+        # locations of the second pass continue the first pass's count: only the verdicts and rows are compared
+        out.append([e if not isinstance(e, dict) else [e["type"], e["text"].split(": ", 1)[-1]] for e in events])
+    try:
+        reader.close()
+    except m["errors"].CutplaceError as error:
+        out.append(["CLOSE-RAISED", type(error).__name__])
+    return out
+
+
+def op_write_with(cid, kind, keep, name):
+    import cutplace
+
+    errors = harness.modules()["errors"]
+    target = io.StringIO(newline="")
+    results = []
+    try:
+        with cutplace.Writer(cid, target) as writer:
+            for row in DATA[name]:
+                try:
+                    writer.write_row(list(row))
+                    results.append("ok")
+                except errors.CutplaceError as error:
+                    results.append([type(error).__name__, str(error)])
+    except errors.CutplaceError as error:
+        results.append(["CLOSE-RAISED", type(error).__name__, str(error)])
+    except Exception as error:
+        return ["FOREIGN", type(error).__name__, str(error)]
+    return [results, target.getvalue()]
+
+
 def op_validate(cid, kind, keep, name):
     import cutplace
 
@@ -207,6 +246,8 @@ OPS = {
     "write_dup_close": (op_write, ("dup", True)),
     "write_many_close": (op_write, ("many", True)),
     "write_other": (op_write, ("other", False)),
+    "read_twice_dup": (op_read_twice, ("dup",)),
+    "write_with_dup": (op_write_with, ("dup",)),
     "app_clean": (op_app, ("clean",)),
     "app_dup": (op_app, ("dup",)),
 }
